@@ -247,7 +247,14 @@ def run(cx: Cx):
         elif implies(p.cond, f_not(AIn(gname, ldict))) is None:
             if p.end == 'raise' and p.last.data.get('exc') == 'TagNotFoundError':
                 okg.add('miss')
-    if okg == {'hit', 'miss'}:
+        elif p.end == 'raise':
+            # an error raised without knowing that the name is not a tag: a stored tag of that spelling cannot be read back
+            okg.add('blind')
+            cx.violation('R-GUARD', mg.qualname, 'every-stored-name-is-readable',
+                         f"the module __getattr__ raises {p.last.data.get('exc')} under [{p.cond!r}] without having looked the name up in the "
+                         f"module library: a tag with such a name is stored by add_tag but can never be read as Tags.<name>",
+                         where=cx.where(mg, p.last.line))
+    if okg - {'blind'} == {'hit', 'miss'}:
         cx.ok('R-GUARD', "Tags.<name> reads the module library's id for the name, TagNotFoundError otherwise", where=cx.where(mg), function=mg.qualname)
     else:
         cx.violation('R-GUARD', mg.qualname, 'module-getattr-reads-the-library',
